@@ -391,7 +391,20 @@ class DisBench(object):
             self.mem[(pc + i) & self.am] = v
 
     def set_labels(self, labels):
-        self.parser.labels = dict(labels)
+        """Install a label table on the long-lived parser.  Every fourth time by assigning a new dict, otherwise by editing the
+        existing dict in place, key by key, the way the monitor's add_label / delete_label do (same object, often
+        the same size): the documented result is the same table either way, so an index or cache derived from an
+        earlier table (seeded changes C08-3, C19-3) shows up in the ordinary comparison."""
+        self._nlab = getattr(self, '_nlab', 0) + 1
+        new = dict(labels)
+        if (self._nlab % 4 or getattr(self, 'force_inplace', False)) and isinstance(self.parser.labels, dict):
+            cur = self.parser.labels
+            for k in [k for k in cur if k not in new]:
+                del cur[k]
+            for k, v in new.items():
+                cur[k] = v
+        else:
+            self.parser.labels = new
 
     def run(self, pc):
         try:
